@@ -147,7 +147,7 @@ async fn run_case(sock: PathBuf, ops: Vec<String>) -> Vec<String> {
         .start(async move |s: tosub::SubsystemHandle| {
             let _api = spawn_worterbuch(&s, config).await.map_err(|e| miette::miette!("{e}"))?;
             // wait for the socket to appear
-            for _ in 0..500 {
+            for _ in 0..5000 {
                 if sock.exists() {
                     break;
                 }
@@ -363,7 +363,7 @@ async fn run_case(sock: PathBuf, ops: Vec<String>) -> Vec<String> {
                             let (r, mut w) = stream.into_split();
                             let mut rd = BufReader::new(r).lines();
                             let Ok(Ok(Some(_welcome))) = tokio::time::timeout(Duration::from_secs(20), rd.next_line()).await else { return vec!["nowelcome".into()] };
-                            if let Some(g) = &go { g.wait().await; }
+                            if let Some(g) = &go { let _ = tokio::time::timeout(Duration::from_secs(30), g.wait()).await; }
                             if delay_us > 0 { tokio::time::sleep(Duration::from_micros(delay_us)).await; }
                             if w.write_all(format!("{line}\n").as_bytes()).await.is_err() { return vec!["nowrite".into()] }
                             w.flush().await.ok();
@@ -390,11 +390,11 @@ async fn run_case(sock: PathBuf, ops: Vec<String>) -> Vec<String> {
                                 if let Some(a) = v.get("ack") {
                                     if a["transactionId"] == json!(7) {
                                         seen.push("A".into());
-                                        if !acked { acked = true; if let Some(b) = &ready { b.wait().await; } }
+                                        if !acked { acked = true; if let Some(b) = &ready { let _ = tokio::time::timeout(Duration::from_secs(30), b.wait()).await; } }
                                     }
                                 } else if let Some(e) = v.get("err") {
                                     seen.push(format!("E{}", e["errorCode"]));
-                                    if let Some(b) = &ready { if !acked { b.wait().await; } }
+                                    if let Some(b) = &ready { if !acked { let _ = tokio::time::timeout(Duration::from_secs(30), b.wait()).await; } }
                                     break;
                                 } else if let Some(st) = v.get("state") {
                                     if let Some(x) = st.get("value") { seen.push(x.as_str().unwrap_or("?").to_owned()); events += 1; }
@@ -420,7 +420,7 @@ async fn run_case(sock: PathBuf, ops: Vec<String>) -> Vec<String> {
                         for _ in 0..nsubs {
                             subs.push(tokio::spawn(subscriber(sock.clone(), sub_line(true), Some(ready.clone()), 0, total, false, done.clone(), None)));
                         }
-                        ready.wait().await;
+                        let _ = tokio::time::timeout(Duration::from_secs(30), ready.wait()).await;
                         let go = std::sync::Arc::new(tokio::sync::Barrier::new(nwr + nlate));
                         let mut writers = vec![];
                         for j in 0..nwr {
@@ -438,7 +438,7 @@ async fn run_case(sock: PathBuf, ops: Vec<String>) -> Vec<String> {
                                     burst.push_str(&json!({"set": {"transactionId": i + 1, "key": key, "value": format!("{j}.{i}")}}).to_string());
                                     burst.push('\n');
                                 }
-                                go.wait().await;
+                                let _ = tokio::time::timeout(Duration::from_secs(30), go.wait()).await;
                                 if w.write_all(burst.as_bytes()).await.is_err() { return vec!["nowrite".to_owned()] }
                                 w.flush().await.ok();
                                 while acks.len() < nwrites {
@@ -485,6 +485,11 @@ async fn run_case(sock: PathBuf, ops: Vec<String>) -> Vec<String> {
                                 kv.sort();
                                 parts.push(format!("G={}", kv.join(",")));
                             }
+                        }
+                        // a connection of the harness that could not be set up (or a task of it that died) says nothing about the
+                        // server: the case is marked for the retry of infrastructure failures
+                        if parts.iter().any(|p| p.contains("noconnect") || p.contains("nowelcome") || p.contains("nowrite") || p.contains("died")) {
+                            lines[0] = "HARNESS-FAILURE".to_owned();
                         }
                         out.push(format!("storm:{}", parts.join(";")));
                         tokio::time::sleep(Duration::from_millis(30)).await;
